@@ -66,6 +66,7 @@ def tasks(tier):
     # memory ports are clocked by their own domain only (the two-domain configurations of C11, same obligations)
     ts += [("memory-two-domains", 12), ("memory-two-domains", 13), ("late-bound",)]
     ts += [("rename-merge", c) for c in ("two-to-one", "onto-existing", "onto-existing-reversed")]
+    ts += [("dict-inserter", c) for c in ("reset", "reset-b-first", "enable", "enable-b-first")]
     return ts
 
 
@@ -421,6 +422,64 @@ def check_rename_merge(case):
     return runner.from_exploration(name, Exploration(name, body).run())
 
 
+def check_dict_inserter(kind):
+    """ResetInserter / EnableInserter given a dict naming TWO domains of one fragment: each control acts on the
+    registers of its own domain only, at its own domain's edges only."""
+    from amaranth.hdl import Signal, Module, ClockDomain, ResetInserter, EnableInserter
+    name = f"dict-inserter({kind})"
+    x, y, z, w = Signal(3, name="x", init=1), Signal(3, name="y", init=2), Signal(4, name="z", init=5), Signal(3, name="w", init=3)
+    d = Signal(3, name="d")
+    ca, cb = Signal(name="ctl_a"), Signal(name="ctl_b")
+    order = kind.endswith("-b-first")
+    inner = Module()
+    if order:
+        inner.d.b += [y.eq(y ^ d), z[2:4].eq(z[2:4] + 1)]
+        inner.d.a += [x.eq(x + d), z[0:2].eq(d[0:2])]
+    else:
+        inner.d.a += [x.eq(x + d), z[0:2].eq(d[0:2])]
+        inner.d.b += [y.eq(y ^ d), z[2:4].eq(z[2:4] + 1)]
+    sub = Module()
+    sub.d.b += w.eq(w - d)
+    inner.submodules.sub = sub
+    Ins = ResetInserter if kind.startswith("reset") else EnableInserter
+    top = Module()
+    cds = {n: ClockDomain(n) for n in ("a", "b")}
+    for cd in cds.values():
+        top.domains += cd
+    top.submodules.inner = Ins({"a": ca, "b": cb})(inner)
+    dsg = Design(top)
+    dsg.register(ca, cb)
+    regs = [x, y, z, w]
+    is_reset = kind.startswith("reset")
+
+    def body(path):
+        dsg.fresh(path, "m")
+        for cd in cds.values():
+            dsg.set(cd.clk, 0)
+            dsg.set(cd.rst, 0)
+        dsg.apply([], path, f"{name}::pre")
+        for dom in ("a", "b"):
+            old = {s.name: dsg.val(s) for s in regs}
+            dv, va, vb = dsg.val(d), dsg.val(ca), dsg.val(cb)
+            dsg.apply([(cds[dom].clk, 1)], path, f"{name}::{dom}-edge")
+            plain = {"x": (old["x"] + dv) & 7, "y": (old["y"] ^ dv) & 7, "w": (old["w"] - dv) & 7,
+                     "z_a": dv & 3, "z_b": ((old["z"] >> 2) + 1) & 3}
+            ctl = va if dom == "a" else vb
+
+            def upd(nm, init):
+                if is_reset:
+                    return ite(ctl != 0, init, plain[nm])
+                return ite(ctl != 0, plain[nm], {"x": old["x"], "y": old["y"], "w": old["w"], "z_a": old["z"] & 3, "z_b": (old["z"] >> 2) & 3}[nm])
+            if dom == "a":
+                exp = {"x": upd("x", x.init), "y": old["y"], "w": old["w"], "z": (old["z"] & 12) | upd("z_a", z.init & 3)}
+            else:
+                exp = {"x": old["x"], "y": upd("y", y.init), "w": upd("w", w.init), "z": (old["z"] & 3) | (upd("z_b", (z.init >> 2) & 3) << 2)}
+            for s_ in regs:
+                path.prove(f"{name}::edge-of-{dom}::{s_.name}", to_sint(dsg.val(s_)) == to_sint(exp[s_.name]))
+            dsg.apply([(cds[dom].clk, 0)], path, f"{name}::{dom}-fall")
+    return runner.from_exploration(name, Exploration(name, body).run())
+
+
 def check_late_bound():
     """ClockSignal(d) / ResetSignal(d) written in a fragment mean THAT fragment's domain d -- also when a subfragment defines a
     domain of the same name of its own (which shadows the outer one below it only), wherever the submodule is added
@@ -498,6 +557,8 @@ def run_task(task):
         return check_late_bound()
     if k == "rename-merge":
         return check_rename_merge(task[1])
+    if k == "dict-inserter":
+        return check_dict_inserter(task[1])
     if k == "memory-two-domains":
         from . import c11
         cfg = c11.configs("thorough")[task[1]]
